@@ -515,7 +515,7 @@ def post_shard(part, tier, sel=None):
         for p in (orders if sel is None else [orders[sel]]):
             for sc in scales:
                 for dim in dims:
-                    for as_param in ((False, True) if not quick else (True,)):
+                    for as_param in ((False, True) if (not quick or dim in (None, 0)) else (True,)):
                         for tv in tensors:
                             t = torch.tensor(tv).reshape(shape)
                             nested = 2 if (dim == -1 and sc == 0.5) else (1 if dim == 0 else 0)  # attribute path depth varies over the grid
